@@ -366,9 +366,40 @@ def make_space(rng, d, dtype, uniform=None):
     return sp, src
 
 
+MODES = ['element', 'mesh-out', 'array', 'array-out', 'points']
+SAMPLE_SRC = '''
+def sample(space, f, mode):
+    """The values of callable f on the grid of `space`, obtained through one entry point of the
+    sampling machinery: space.element (out-of-place on the mesh) or the wrapper returned by
+    sampling_function called on the mesh with out=, on the point array (d, N) with/without out=,
+    or point by point."""
+    import numpy as np
+    from odl.discr.discr_utils import sampling_function, point_collocation
+    if mode == 'element':
+        return space.element(f).asarray()
+    func = sampling_function(f, space.domain, out_dtype=space.dtype)
+    if mode == 'mesh-out':
+        out = np.full(space.shape, np.nan, dtype=space.dtype)
+        r = point_collocation(func, space.meshgrid, out=out)
+        assert r is out
+        return out
+    pts = space.points()
+    if mode == 'array':
+        return np.asarray(func(pts.T)).reshape(space.shape)
+    if mode == 'array-out':
+        out = np.full(len(pts), np.nan, dtype=space.dtype)
+        func(pts.T, out=out)
+        return out.reshape(space.shape)
+    vals = [func(p[0] if space.ndim == 1 else p) for p in pts]
+    assert all(isinstance(v, (float, complex)) for v in vals)
+    return np.array(vals).reshape(space.shape).astype(space.dtype)
+'''
+exec(SAMPLE_SRC)
+
+
 def sampling_cases(rng, tier):
     cs = C.CaseSet('sampling', ['C15.Model', 'C15.Corr'], 'scheck', 'scase')
-    n_cases = 260 if tier == 'quick' else 1500
+    n_cases = 360 if tier == 'quick' else 1800
     for it in range(n_cases):
         d = rng.choice([1, 1, 2, 2, 3])
         dtype = rng.choice(['float64', 'float64', 'float32', 'complex128'])
@@ -396,18 +427,22 @@ def sampling_cases(rng, tier):
         src = make_callable_src(flavour, ex_re, ex_im, cplx, d)
         env = {}
         exec(src, env)
+        mode = MODES[(it // len(FLAVOURS)) % len(MODES)]
+        if flavour == 'ufunc' and mode.endswith('-out'):
+            mode = 'array'       # recorded finding sampling-1d-ufunc-inplace-valueerror, probed separately
         with warnings.catch_warnings():
             warnings.simplefilter('ignore')
-            arr = sp.element(env['f']).asarray()
+            arr = sample(sp, env['f'], mode)
         cvs = [c.tolist() for c in sp.grid.coord_vectors]
         flat = np.asarray(arr).ravel()
         term = ('{| s_cvs := %s; s_re := %s; s_im := %s; s_cplx := %s; s_out_re := %s; s_out_im := %s |}'
                 % (C.qss(cvs), ex_re.coq(), ex_im.coq(), C.b(cplx),
                    C.qs([float(v) for v in flat.real.tolist()]),
                    C.qs([float(v) for v in flat.imag.tolist()]) if cplx else '[]'))
-        desc = {'flavour': flavour, 'dtype': dtype, 'space': spsrc, 'callable': src, 'shape': list(sp.shape)}
+        desc = {'flavour': flavour, 'mode': mode, 'dtype': dtype, 'space': spsrc, 'callable': src,
+                'shape': list(sp.shape)}
         nontriv = len(set(flat.tolist())) > 1
-        cs.add(term, desc, (flavour, dtype, spsrc, src) if nontriv else None)
+        cs.add(term, desc, (flavour, mode, dtype, spsrc, src) if nontriv else None)
     return cs
 
 
@@ -653,7 +688,7 @@ def probes(rng, tier):
                    snip)
 
     # ---- 4. sampling: every callable flavour gives the callable's values at the grid points
-    for it in range(len(FLAVOURS) * 2 * reps):
+    for it in range(len(FLAVOURS) * 3 * reps):
         flavour = FLAVOURS[it % len(FLAVOURS)]
         d = 1 if flavour in ('plain1d', 'ufunc') else rng.choice([1, 2, 3])
         dtype = rng.choice(['float64', 'float32', 'complex128'])
@@ -674,14 +709,16 @@ def probes(rng, tier):
         src = make_callable_src(flavour, ex_re, ex_im, cplx, d)
         # expected values from a plain Python loop over the grid points with the scalar form of the expression
         scalar = ex_re.src(False, 'p') + ((' + 1j * (%s)' % ex_im.src(False, 'p')) if cplx else '')
-        snip = ('import numpy as np, odl, warnings\nwarnings.simplefilter("ignore")\n' + spsrc + src +
-                'got = space.element(f).asarray()\n'
+        mode = MODES[(it // len(FLAVOURS)) % len(MODES)] if it >= len(FLAVOURS) else 'element'
+        snip = ('import numpy as np, odl, warnings\nwarnings.simplefilter("ignore")\n' + SAMPLE_SRC + spsrc + src +
+                'got = sample(space, f, %r)\n' % mode +
                 'expected = np.array([%s for p in space.points()]).reshape(space.shape).astype(space.dtype)\n'
                 'observed = got\nok = got.shape == space.shape and got.dtype == space.dtype and bool(np.all(got == expected))\n'
                 % scalar)
-        _probe(out, 'sampling-%s-%s' % (flavour, dtype),
-               'space.element(callable) for a %s callable (%s, %d-d) equals the callable at the grid points'
-               % (flavour, dtype, d), snip)
+        _probe(out, 'sampling-1d-ufunc-inplace-valueerror' if (flavour == 'ufunc' and mode.endswith('-out'))
+               else 'sampling-%s-%s-%s' % (flavour, dtype, mode),
+               'sampling a %s callable (%s, %d-d) via %s gives the callable\'s values at the grid points'
+               % (flavour, dtype, d, mode), snip)
 
     # ---- 5. operators built on the interpolators
     for _ in range(2 * reps):
